@@ -369,6 +369,34 @@ def h_monomial_inverse(env, N, c):
     env.goal('receiver_unchanged', AND([arr_eq(m.g, g), eq(m.p, p)]))
 
 
+def h_zero_and_sum(env, N):
+    """the empty polynomial and Python's sum(): A - A is the zero operator, zero is neutral for + (products with the empty polynomial depend on numba's reshape of empty arrays and are not modelled),
+    sum([A, B]) == A + B, reduce / trace of the empty polynomial"""
+    M = Mods(env)
+    A, ta = mk_operand(env, M, N, 'PauliPolynomial', 'a_', [20])
+    B, tb = mk_operand(env, M, N, 'PauliMonomial', 'b_', [0])
+    va, vb = coefvec(N, ta), coefvec(N, tb)
+    zero_vec = {s: (0, 0) for s in va}
+    r = env.run(lambda: A - A)
+    env.goal('a_minus_a_no_exception', b_not(r.raised))
+    if r.value is not None:
+        reduced_goals(env, 'a_minus_a', r.value, zero_vec, N, M)
+        Z = r.value
+        r2 = env.run(lambda: (Z + B, B + Z, Z.reduce(), Z.trace(), (-Z), 2 * Z))
+        env.goal('zero_ops_no_exception', b_not(r2.raised))
+        if r2.value is not None:
+            zb, bz, zr, zt, nz, z2 = r2.value
+            reduced_goals(env, 'zero_plus_b', zb, vb, N, M)
+            reduced_goals(env, 'b_plus_zero', bz, vb, N, M)
+            vec_eq(env, 'reduced_zero', vec_of(zr, N, M), zero_vec)
+            tr_, ti_ = parts(zt)
+            env.goal('trace_of_zero', b_and(eq(tr_, 0), eq(ti_, 0)))
+    r3 = env.run(lambda: sum([A, B]))
+    env.goal('sum_no_exception', b_not(r3.raised))
+    if r3.value is not None:
+        reduced_goals(env, 'builtin_sum', r3.value, {s: cadd(va[s], vb[s]) for s in va}, N, M)
+
+
 def h_constants(env, N):
     M = Mods(env)
     ident = tuple([0] * (2 * N))
@@ -440,6 +468,7 @@ def jobs(tier):
             J.append(dict(harness=('c15', 'h_reduce_trace'), params=dict(N=N, ks=[0, 20, 20]), timeout_s=600, max_paths=20000, cost=60))
         J.append(dict(harness=('c15', 'h_reduce_trace'), params=dict(N=N, ks=[0, 20], tol=1e-3), timeout_s=600, cost=20))
         J.append(dict(harness=('c15', 'h_constants'), params=dict(N=N)))
+        J.append(dict(harness=('c15', 'h_zero_and_sum'), params=dict(N=N), timeout_s=600, max_paths=20000, cost=40))
         for c in ((2, 0), (0, 1), (-0.5, 0), (0, -4)):
             J.append(dict(harness=('c15', 'h_monomial_inverse'), params=dict(N=N, c=list(c)), max_paths=5000))
         for how in ('rotate', 'transform'):
